@@ -178,4 +178,42 @@ example : decodeAll 4 (str "OK") .eof = [.unexpectedEof] := by
     (by simp) (by decide +kernel) (by decide +kernel) (by decide) (by decide)
   simpa using h
 
+/-! ## … also after reads that failed and were retried
+
+A caller that calls `receive` again after every reported read failure (`sessionRetryA/S`, C02): however
+many reads failed on the way, and wherever, an end of stream inside a response is still an
+unexpected-EOF error after the complete responses, and an end on a response boundary is still clean
+(seeded change C10_m22, which reset the half-built response on every failed read, breaks the first). -/
+
+theorem C10_unclean_after_failed_reads_async (fuel : Nat) (rs : List Spec.AbsResp) (r : Spec.AbsResp) (p q : Bytes)
+    (cs : List Bytes) (t : Term) (more : List Conn.ScriptPiece)
+    (hio : IoChain t more) (hne : NonEmptyChunks (flatScript cs more)) (hlast : lastTerm t more = .eof)
+    (hwf : ∀ x ∈ rs, Spec.WF x = true) (hr : Spec.WF r = true)
+    (hpq : Spec.enc r = p ++ q) (hp : p ≠ []) (hq : q ≠ [])
+    (hflat : (flatScript cs more).flatten = rs.flatMap Spec.enc ++ p) :
+    sessionRetryA (fuel + 1 + rs.length) 0 .initial [] cs t more = rs.map viewItem ++ [.unexpectedEof] := by
+  rw [C02.C02_failed_reads_invisible_session _ cs t more hio hne, hlast, hflat]
+  exact C10_unclean fuel rs r p q hwf hr hpq hp hq
+
+theorem C10_clean_after_failed_reads_async (fuel : Nat) (rs : List Spec.AbsResp)
+    (cs : List Bytes) (t : Term) (more : List Conn.ScriptPiece)
+    (hio : IoChain t more) (hne : NonEmptyChunks (flatScript cs more)) (hlast : lastTerm t more = .eof)
+    (hwf : ∀ x ∈ rs, Spec.WF x = true)
+    (hflat : (flatScript cs more).flatten = rs.flatMap Spec.enc) :
+    sessionRetryA (fuel + 1 + rs.length) 0 .initial [] cs t more = rs.map viewItem ++ [.clean] := by
+  rw [C02.C02_failed_reads_invisible_session _ cs t more hio hne, hlast, hflat]
+  exact C10_clean fuel rs hwf
+
+theorem C10_unclean_after_failed_reads_blocking (fuel : Nat) (rs : List Spec.AbsResp) (r : Spec.AbsResp) (p q : Bytes)
+    (cs : List Bytes) (t : Term) (more : List Conn.ScriptPiece)
+    (hio : IoChain t more) (hne : NonEmptyChunks (flatScript cs more)) (hlast : lastTerm t more = .eof)
+    (hwf : ∀ x ∈ rs, Spec.WF x = true) (hr : Spec.WF r = true)
+    (hpq : Spec.enc r = p ++ q) (hp : p ≠ []) (hq : q ≠ [])
+    (hflat : (flatScript cs more).flatten = rs.flatMap Spec.enc ++ p) :
+    sessionRetryS (fuel + 1 + rs.length) 0 .initial { cap := DEFAULT_CAP, data := [] } cs t more =
+      rs.map viewItem ++ [.unexpectedEof] := by
+  rw [C02.C02_failed_reads_invisible_session_blocking _ _ cs t more hio hne (by unfold SInv DEFAULT_CAP; simp),
+    hlast, List.nil_append, hflat]
+  exact C10_unclean fuel rs r p q hwf hr hpq hp hq
+
 end Mpd.C10
